@@ -38,6 +38,10 @@ CHECKS = {
          "For each seeded journal history the index file is replaced by every variant of a catalogue (missing, empty, valid, every truncation point, every byte flipped, random bytes, stale index of each earlier clean close, index of another journal, checksum-valid-but-wrong ranges, EIO on read); the store is opened read-write and read-only and must show the same root and the same readable chunks (byte for byte) as with no index; the read-only open must issue no mutating file operation (observed at the simulated OS).",
          "Forged indexes (checksums recomputed over altered contents) are probes only. Two known findings (lookup offset/length not covered by the batch CRC) are listed in known_findings.txt.",
          "deterministic simulation: at-rest fault enumeration of the index file against the no-index reference, OS-level write observation", "DESIGN.md §6.1 C04", "dsim-store"),
+ "C07": ("exploration",
+         "Seeded histories of puts whose child lists point to committed, pending or never-written chunks, commits (right/stale expectation, arbitrary roots), table files handed over through WriteTableFile + AddTableFilesToManifest, rebase and clean reopen on file-manifest and journaling stores with tiny memtables; after every state-changing step an independent second instance opens the directory and walks the persisted root over the store's own bytes: every reachable address must be present; a rejected commit must leave the persisted root alone and the store usable.",
+         "The arbiter is the reachability walk on persisted state, not the model's prediction (the store may be stricter than the model). Three known findings about AddTableFilesToManifest are listed in known_findings.txt. Ghost (shallow clone) commits are not exercised.",
+         "deterministic simulation: seeded stateful histories, independent second opener + reachability walk after every step", "DESIGN.md §6.1 C07", "dsim-store"),
  "C10": ("fault_enumeration",
          "Small valid store directories (journal, table files, GC output, archives, manifests) built by the real writers; every byte of one storage file flipped and every truncation point applied (exhaustive for small files), plus multi-byte and 4KiB-block damage; every read path of the real store is driven over stored and mask-adjacent addresses; a panic (also in helper goroutines, detected through a crash sentinel + process restart), a multi-GB allocation, or a chunk whose bytes do not hash to its address is a violation.",
          "A stored chunk reported absent is a probe. Misreads that the undamaged store produces too (16-byte journal prefix) are excluded here and decided under C01. 15 known findings (call sites) are listed in known_findings.txt; RLIMIT_AS 4 GB turns runaway allocations into detectable crashes.",
